@@ -101,6 +101,22 @@ def parse_reports(logfiles):
     return list(seen.values())
 
 
+def report_mechanism(r) -> str:
+    """structural name of a sanitizer report (error class + what freed / owns the memory)"""
+    t = r['text']
+    if r['kind'] == 'asan':
+        m = re.search(r'AddressSanitizer: ([a-z-]+)', t)
+        err = m.group(1) if m else 'error'
+        if err == 'heap-use-after-free' and 'getValueAndDerivatives' in t and re.search(r'freed by thread', t):
+            # a parent operator still reads the derivative buffers of a child whose buffers were re-allocated when the
+            # same (shared) child object was evaluated again with other derivative flags
+            return 'sanitizer-asan-heap-use-after-free-of-child-derivative-buffers'
+        return f'sanitizer-asan-{err}'
+    if r['kind'] == 'ubsan':
+        return 'sanitizer-ubsan-report'
+    return 'sanitizer-tsan-report'
+
+
 def run_under_asan(prop, modname, cases, workdir, tier, jobs=None):
     """Run cases through the normal worker, but on the ASan/UBSan engine. Returns result dicts."""
     from ..main import run_workers
@@ -133,7 +149,7 @@ def run_under_asan(prop, modname, cases, workdir, tier, jobs=None):
     if ran == 0:
         summary['inconclusive'].append('no case ran on the sanitizer engine')
     for r in reps:
-        summary['viol'].append({'mech': f'{prop}/sanitizer-{r["kind"]}-report', 'msg': r['text'][:1500],
+        summary['viol'].append({'mech': f'{prop}/{report_mechanism(r)}', 'msg': r['text'][:1500],
                                 'witness': {'key': r['key'], 'count': r.get('count')}})
     # the behavioural verdicts of the sanitizer run count too, but keys/evaluations are tagged
     for r in res:
